@@ -1119,7 +1119,7 @@ def op_site(desc, pool):
     return "CompositeSystem.basis"
 
 
-def run_history(ctx, case, report=True):
+def run_history(ctx, case, report=True, record=None):
     """executes a history; returns (ops actually executed, failures [(site, signature, op index, what)])"""
     Q = q()
     rng = random.Random(case["seed"])
@@ -1205,6 +1205,8 @@ def run_history(ctx, case, report=True):
             rf = canon(e)
         finally:
             Q["Settings"].set_atol(atol0)
+        if record is not None and frozen is not None and desc["t"] not in ("setter", "twin") and len(record) < 400:
+            record.append({"k": k, "site": site, "desc": desc, "frozen": frozen, "rh": rh})
         if not same(rh, rf):
             fails.append((site, "history-dependent", k, "result of op %d (%s) differs from the same call on fresh copies in a fresh world: %s vs %s" % (k, site, _brief(rh), _brief(rf))))
         # ---- nothing that existed before may have changed
@@ -1529,12 +1531,14 @@ def make_tomo(kind, on_para, world=None):
     c = w.csys(((0,), 0))
     povms = lambda: [get_x_povm(c), get_y_povm(c), get_z_povm(c)]
     states = lambda: [get_z0_1q(c), get_z1_1q(c), get_x0_1q(c), get_y0_1q(c)]
-    if kind == "qst":
+    if kind in ("qst", "qst_perm"):
         from quara.protocol.qtomography.standard.standard_qst import StandardQst
-        return StandardQst(povms(), on_para_eq_constraint=on_para, seed_data=7)
-    if kind == "povmt":
+        pv = povms()
+        return StandardQst(pv if kind == "qst" else [pv[2], pv[0], pv[1]], on_para_eq_constraint=on_para, seed_data=7)
+    if kind in ("povmt", "povmt_perm"):
         from quara.protocol.qtomography.standard.standard_povmt import StandardPovmt
-        return StandardPovmt(states(), num_outcomes=2, on_para_eq_constraint=on_para, seed_data=7)
+        sv = states()
+        return StandardPovmt(sv if kind == "povmt" else [sv[3], sv[2], sv[0], sv[1]], num_outcomes=2, on_para_eq_constraint=on_para, seed_data=7)
     if kind == "qpt":
         from quara.protocol.qtomography.standard.standard_qpt import StandardQpt
         return StandardQpt(states(), povms(), on_para_eq_constraint=on_para, seed_data=7)
@@ -1574,7 +1578,7 @@ def chk_tomo(ctx, case):
     kind, on_para = case["kind"], bool(case["on_para"])
     qt = make_tomo(kind, on_para)
     ref = tomo_snapshot(make_tomo(kind, on_para))
-    site0 = "Standard%s%s" % (kind[0].upper(), kind[1:])
+    site0 = "Standard%s%s" % (kind[0].upper(), kind[1:].split("_")[0])
     s0 = tomo_snapshot(qt)
     ctx.count("tomo", key=(kind, on_para, "queries"), label="%s queries" % kind)
     if s0 != ref:
@@ -1679,6 +1683,165 @@ def chk_tomo_estimate(ctx, case):
             ctx.violation("tomo_estimate", site, "mutates-derived-object", "mutating the estimated object changed the estimated variables of the result", sub)
 
 
+_SHARED_EST = {}
+
+
+def chk_shared_estimators(ctx, case):
+    """ONE LinearEstimator, ONE ProjectedLinearEstimator (and, thorough tier / small systems, one CvxpyLossMinimizationEstimator with one
+    loss and one algorithm object) re-used over ALL tomography classes, parametrisations and data sets of the run, in the order of
+    the case list: every estimate equals that of fresh estimator / loss / algorithm objects on a fresh tomography object"""
+    from quara.protocol.qtomography.standard.linear_estimator import LinearEstimator
+    from quara.protocol.qtomography.standard.projected_linear_estimator import ProjectedLinearEstimator
+    kind, on_para, k = case["kind"], bool(case["on_para"]), case["k"]
+    which = case["est"]
+    qt = make_tomo(kind, on_para)
+    data = tomo_data(qt, k)
+    dd0 = data_digest([data])
+    s0 = tomo_snapshot(qt)
+
+    def mk():
+        if which == "linear":
+            return LinearEstimator()
+        if which == "projected":
+            return ProjectedLinearEstimator(mode_proj_order=case.get("order", "eq_ineq"))
+        from quara.interface.cvxpy.qtomography.standard.estimator import CvxpyLossMinimizationEstimator
+        from quara.interface.cvxpy.qtomography.standard.loss_function import CvxpyRelativeEntropy, CvxpyUniformSquaredError, CvxpyLossFunctionOption
+        from quara.interface.cvxpy.qtomography.standard.minimization_algorithm import CvxpyMinimizationAlgorithm, CvxpyMinimizationAlgorithmOption
+        return {"est": CvxpyLossMinimizationEstimator(), "loss": {"sq": CvxpyUniformSquaredError(), "re": CvxpyRelativeEntropy()},
+                "algo": CvxpyMinimizationAlgorithm(), "lopt": CvxpyLossFunctionOption, "aopt": CvxpyMinimizationAlgorithmOption}
+
+    def run(e, t, d):
+        try:
+            with warnings.catch_warnings():
+                warnings.simplefilter("ignore")
+                if which == "cvxpy":
+                    r = e["est"].calc_estimate(t, d, e["loss"][case["loss"]], e["lopt"](), e["algo"], e["aopt"](name_solver="clarabel", eps_tol=1e-9), is_computation_time_required=False)
+                else:
+                    r = e.calc_estimate(t, d, is_computation_time_required=False)
+            return canon(np.array(r.estimated_var))
+        except Exception as ex:
+            return canon(ex)
+    key = (which, case.get("order"))
+    if case.get("fresh_shared") or key not in _SHARED_EST:
+        _SHARED_EST[key] = mk()
+    v = run(_SHARED_EST[key], qt, data)
+    vf = run(mk(), make_tomo(kind, on_para), [(n, pr.copy()) for n, pr in data])
+    tol = 1e-9 if which != "cvxpy" else 1e-6
+    ctx.count("shared", key=(which, kind, on_para, k, case.get("loss")), nontrivial=not (isinstance(v, tuple) and v[0] == "exc"), label="%s %s" % (which, kind))
+    site = {"linear": "LinearEstimator", "projected": "ProjectedLinearEstimator", "cvxpy": "CvxpyLossMinimizationEstimator"}[which] + ".calc_estimate"
+    if not same(v, vf, tol):
+        ctx.violation("shared", site, "history-dependent",
+                      "estimator object%s re-used over the earlier cases of this run gives %s on (%s, on_para_eq_constraint=%s, data set %d), fresh objects give %s" % (
+                          " (+ loss and algorithm objects)" if which == "cvxpy" else "", _brief(v), kind, on_para, k, _brief(vf)), dict(case, fresh_shared=0))
+    if data_digest([data]) != dd0:
+        ctx.violation("shared", site, "mutates-argument", "the estimation overwrote the empirical distributions handed to it", case)
+    if tomo_snapshot(qt) != s0:
+        ctx.violation("shared", site, "mutates-argument", "the estimation changed the tomography object", case)
+
+
+def sub_shared(ctx):
+    """(a replayed single case starts with fresh shared objects - the history is the case list of the run)"""
+    _SHARED_EST.clear()
+    cases = []
+    # (the *_perm variants have the same class and the same shapes as their twins but other testers: a per-object memo keyed by shapes shows)
+    kinds = ["qst", "qst_perm", "povmt", "povmt_perm", "qpt"] + ([] if ctx.quick else ["qmpt"])
+    for k in range(2):
+        for kind in kinds:
+            for op in (1, 0):
+                cases.append({"est": "linear", "kind": kind, "on_para": op, "k": k})
+                if kind != "qmpt" and (not ctx.quick or (kind, op) != ("qpt", 0)):
+                    cases.append({"est": "projected", "kind": kind, "on_para": op, "k": k, "order": "eq_ineq" if (k + op) % 2 else "ineq_eq"})
+    for kind, op, k, lo in ([("qst", 1, 0, "sq"), ("qst", 0, 1, "re"), ("qst", 1, 1, "sq")] if ctx.quick else
+                            [("qst", 1, 0, "sq"), ("qst", 0, 1, "re"), ("povmt", 1, 0, "re"), ("qst", 1, 1, "sq"), ("povmt", 0, 1, "sq"), ("qst", 0, 0, "re")]):
+        cases.append({"est": "cvxpy", "kind": kind, "on_para": op, "k": k, "loss": lo})
+    ctx.sample("shared", cases[0])
+    ctx.run_cases("shared", chk_shared_estimators, cases)
+
+
+# ------------------------------------------------------------------------------------------------ containers
+def mk_experiment(world, seed_data=5):
+    from quara.qcircuit.experiment import Experiment
+    from quara.objects.povm import get_x_povm, get_z_povm
+    from quara.objects.state import get_z0_1q, get_x0_1q
+    from quara.objects.gate import get_h, get_x
+    c = world.csys(((0,), 0))
+    sched = [[("state", 0), ("gate", 0), ("povm", 1)], [("state", 1), ("povm", 0)], [("state", 0), ("gate", 1), ("gate", 0), ("povm", 0)]]
+    return Experiment(schedules=sched, states=[get_z0_1q(c), get_x0_1q(c)], povms=[get_x_povm(c), get_z_povm(c)], gates=[get_h(c), get_x(c)], seed_data=seed_data)
+
+
+def exp_snapshot(e):
+    obs = [[canon(x) for x in e.states], [canon(x) for x in e.povms], [canon(x) for x in e.gates], [canon(x) for x in e.mprocesses],
+           repr(e.schedules), e.seed_data, [np.array(p) for p in e.calc_prob_dists()]]
+    h = hashlib.sha1(); _feed(h, [canon(o) for o in obs]); return h.hexdigest()
+
+
+def chk_containers(ctx, case):
+    """Experiment / SetQOperations: queries repeatable and side-effect free; a copy / an object generated from a variable vector
+    is independent of its original (every public mutator applied to every member of the copy, entries of the copy replaced)"""
+    what = case["what"]
+    w = World()
+    e = mk_experiment(w)
+    s0 = exp_snapshot(e)
+    ctx.count("containers", key=what, label=what)
+    if what == "queries":
+        if exp_snapshot(mk_experiment(World())) != s0:
+            ctx.violation("containers", "Experiment", "history-dependent", "two experiments built from the same arguments differ", case)
+        for i in range(len(e.schedules)):
+            e.calc_prob_dist(i)
+        if exp_snapshot(e) != s0:
+            ctx.violation("containers", "Experiment.calc_prob_dist", "mutates-argument", "calc_prob_dist / calc_prob_dists changed the experiment", case)
+        return
+    if what == "copy":
+        e2 = e.copy()
+        site = "Experiment.copy"
+        if exp_snapshot(e) != s0:
+            ctx.violation("containers", site, "mutates-argument", "copy() changed the experiment", case); return
+        members = lambda x: list(x.states) + list(x.povms) + list(x.gates) + list(x.mprocesses)
+        if not same([canon(a) for a in members(e2)], [canon(a) for a in members(e)]):
+            ctx.violation("containers", site, "value", "the members of the copy differ from those of the original", case)
+        shared = [type(a).__name__ for a, b in zip(members(e2), members(e)) if a is b]
+        # replacing entries of the copy
+        e2.states[0] = e2.states[1]
+        if exp_snapshot(e) != s0:
+            ctx.violation("containers", site, "not-independent", "replacing an entry of the copy's list of states changed the original", case); return
+        e2 = e.copy()
+        for m_ in members(e2):
+            for mname, mut in MUTATORS:
+                try:
+                    mut(m_)
+                except Exception:
+                    continue
+                if exp_snapshot(e) != s0:
+                    ctx.violation("containers", site, "not-independent",
+                                  "%s on a %s of the copy changed the ORIGINAL experiment (its members / calc_prob_dists): copy() shares the member objects %s" % (mname, type(m_).__name__, sorted(set(shared))), case)
+                    return
+        return
+    # SetQOperations
+    from quara.objects.qoperations import SetQOperations
+    sq = SetQOperations(states=list(e.states), gates=list(e.gates), povms=list(e.povms))
+    v0 = np.array(sq.var_total())
+    site = "SetQOperations.set_qoperations_from_var_total"
+    sq2 = sq.set_qoperations_from_var_total(v0.copy())
+    if exp_snapshot(e) != s0 or not np.array_equal(np.array(sq.var_total()), v0):
+        ctx.violation("containers", site, "mutates-argument", "generating a set of objects from the variables changed the original set", case); return
+    if not same(canon(np.array(sq2.var_total())), canon(v0)):
+        ctx.violation("containers", site, "value", "var_total of the generated set differs from the variables it was generated from", case)
+    for m_ in list(sq2.states) + list(sq2.gates) + list(sq2.povms):
+        for mname, mut in MUTATORS:
+            try:
+                mut(m_)
+            except Exception:
+                continue
+            if exp_snapshot(e) != s0 or not np.array_equal(np.array(sq.var_total()), v0):
+                ctx.violation("containers", site, "not-independent", "%s on a member of the generated set changed the original set" % mname, case); return
+
+
+def sub_containers(ctx):
+    cases = [{"what": w_} for w_ in ("queries", "copy", "setq")]
+    ctx.sample("containers", cases[0])
+    ctx.run_cases("containers", chk_containers, cases)
+
+
 def sub_tomo(ctx):
     cases = [{"kind": k, "on_para": op} for k in ("qst", "povmt", "qpt", "qmpt") for op in ((1, 0) if not ctx.quick else (1,) if k == "qmpt" else (0, 1))]
     ctx.sample("tomo", cases[0])
@@ -1749,9 +1912,26 @@ def chk_derived(ctx, case):
                     return canon(perform(world, desc, [x]))
             except Exception as e:
                 return canon(e)
+        atol0 = q()["Settings"].get_atol()
         r1 = call(d, w)
         fw = World()
         r2 = call(thaw(fr, fw), fw)
+        # the same query with every tolerance argument given explicitly (a value that is not the global one) must not leak it
+        import inspect
+        try:
+            tolargs = [pn for pn in inspect.signature(getattr(d, u)).parameters if "atol" in pn] if i is None else []
+        except (TypeError, ValueError, AttributeError):
+            tolargs = []
+        if tolargs:
+            try:
+                with warnings.catch_warnings():
+                    warnings.simplefilter("ignore")
+                    getattr(d, u)(**{pn: 1e-5 for pn in tolargs})
+            except Exception:
+                pass
+        if q()["Settings"].get_atol() != atol0:
+            ctx.violation("derived", "%s.%s" % (dk, u), "mutates-global-settings", "%s%s left Settings.atol at %r (was %r)" % (u, "(%s=1e-5)" % ", ".join(tolargs) if tolargs else "()", q()["Settings"].get_atol(), atol0), dict(case, u=[u, i]))
+            q()["Settings"].set_atol(atol0)
         ctx.count("derived", key=(case["key"], g, u, i), nontrivial=not (isinstance(r1, tuple) and r1[0] == "exc"), label="%s -> %s" % (g, dk))
         sub = dict(case, u=[u, i])
         if not same(r1, r2):
@@ -1779,6 +1959,97 @@ def sub_factory(ctx):
                 cases.append({"pool_seed": ps, "key": key, "m": m})
     ctx.sample("factory", cases[0])
     ctx.run_cases("factory", chk_factory, cases)
+
+
+def process_worker(path_in, path_out):
+    """runs in a FRESH python process: the recorded calls, on operands thawed from their snapshots, in REVERSE order"""
+    import pickle
+    Q = q()
+    recs = pickle.load(open(path_in, "rb"))
+    atol0 = Q["Settings"].get_atol()
+    out = {}
+    for idx in sorted(recs, reverse=True):
+        r = recs[idx]
+        fw = World()
+        try:
+            fops = [thaw(fr, fw) for fr in r["frozen"]]
+            if "atol" in r["desc"]:
+                Q["Settings"].set_atol(r["desc"]["atol"])
+            with warnings.catch_warnings():
+                warnings.simplefilter("ignore")
+                out[idx] = canon(perform(fw, r["desc"], fops))
+        except Exception as e:
+            out[idx] = canon(e)
+        finally:
+            Q["Settings"].set_atol(atol0)
+    pickle.dump(out, open(path_out, "wb"))
+
+
+def chk_process(ctx, case):
+    """process-global hidden state (module-level memo tables, class attributes, leaked settings): the calls of some histories are
+    repeated in a fresh python process, in reverse order, on operands rebuilt from their snapshots - same results"""
+    import os, pickle, subprocess, sys
+    recs = {}
+    for hi, hist in enumerate(case["hists"]):
+        rec = []
+        run_history(ctx, dict(hist), record=rec)
+        for r in rec:
+            recs[(hi, r["k"])] = r
+    # systematic part: the same operations on two value-DIFFERENT operands of the same type, shape and configuration (objects of two
+    # pools), binary operations in both orders - a memo keyed too coarsely (by shape, type, sizes) gives the first operand's answer
+    # to the second one here and, with the order reversed, the second one's to the first in the fresh process
+    for which, ps in enumerate(case["twins"]):
+        tw = World()
+        tp = make_pool(tw, random.Random(ps))
+        descs = []
+        for key in ("S00", "G00", "P00", "M00", "S20", "D0", "D1", "D2"):
+            kind = tp[key]["kind"]
+            descs += [({"t": "unary", "m": u, "a": [key]}, [key]) for u in UNARY[kind] if u not in ("copy",)]
+            descs += [({"t": "indexed", "m": u, "i": 0, "a": [key]}, [key]) for u in INDEXED.get(kind, [])]
+            if kind == "MD":
+                nv = len(tp[key]["obj"].shape)
+                descs += [({"t": "md", "m": "marginalize", "idx": [j], "a": [key]}, [key]) for j in range(nv)]
+                descs += [({"t": "md", "m": "conditionalize", "idx": [0], "vals": [1], "a": [key]}, [key]), ({"t": "md", "m": "getitem", "idx": 1, "a": [key]}, [key])]
+        for a_, b_ in (("G00", "S00"), ("P00", "S00"), ("M00", "S00"), ("G00", "G01"), ("P00", "G00")):
+            descs.append(({"t": "compose", "a": [a_, b_]}, [a_, b_]))
+        for a_, b_ in (("S00", "S10"), ("S10", "S00"), ("G00", "G10"), ("G10", "G00"), ("P00", "P10"), ("P10", "P00"), ("S20", "S00"), ("S00", "S20")):
+            descs.append(({"t": "tensor", "a": [a_, b_]}, [a_, b_]))
+        for j, (desc, keys) in enumerate(descs):
+            frozen = [freeze(tp[k_]["obj"], tp[k_]["csid"]) for k_ in keys]
+            fw = World()
+            try:
+                with warnings.catch_warnings():
+                    warnings.simplefilter("ignore")
+                    rh = canon(perform(fw, desc, [thaw(fr, fw) for fr in frozen]))
+            except Exception as e:
+                rh = canon(e)
+            recs[(100 + which, j)] = {"k": j, "site": op_site(desc, tp), "desc": desc, "frozen": frozen, "rh": rh}
+    if case.get("only") is not None:
+        recs = {k_: v for k_, v in recs.items() if list(k_) == list(case["only"])}
+    d = os.path.join(ctx.scratch, "process")
+    os.makedirs(d, exist_ok=True)
+    pin, pout = os.path.join(d, "in.pkl"), os.path.join(d, "out.pkl")
+    pickle.dump({k_: {"desc": v["desc"], "frozen": v["frozen"]} for k_, v in recs.items()}, open(pin, "wb"))
+    if os.path.exists(pout):
+        os.remove(pout)
+    r = subprocess.run([sys.executable, "-c", "import sys; from props import c13; c13.process_worker(sys.argv[1], sys.argv[2])", pin, pout],
+                       capture_output=True, text=True, timeout=600, env=dict(os.environ))
+    if r.returncode != 0 or not os.path.exists(pout):
+        raise RuntimeError("process worker failed: " + (r.stdout + r.stderr)[-500:])
+    out = pickle.load(open(pout, "rb"))
+    for k_, v in sorted(recs.items()):
+        ctx.count("process", key=(k_[0] if k_[0] >= 100 else tuple(sorted(case["hists"][k_[0]].items())), k_[1]), nontrivial=not (isinstance(v["rh"], tuple) and v["rh"] and v["rh"][0] == "exc"), label=v["desc"]["t"])
+        if not same(v["rh"], out[k_]):
+            ctx.violation("process", v["site"], "process-state-dependent",
+                          "op %d of history %d (%s): in this process (after everything that ran before) %s, in a fresh process %s" % (k_[1], k_[0], v["site"], _brief(v["rh"]), _brief(out[k_])),
+                          dict(case, only=list(k_)))
+
+
+def sub_process(ctx):
+    case = {"hists": [{"seed": ctx.rng.randrange(1 << 30), "pool_seed": ctx.rng.randrange(1 << 30), "length": ctx.n(10, 25)} for _ in range(ctx.n(6, 20))],
+            "twins": [ctx.rng.randrange(1 << 30), ctx.rng.randrange(1 << 30)]}
+    ctx.sample("process", case)
+    ctx.run_cases("process", chk_process, [case])
 
 
 def sub_history(ctx):
@@ -2190,6 +2461,42 @@ def chk_estimate(ctx, case):
                 return
 
 
+def chk_loss_pair(ctx, case):
+    """two loss objects (classes kind_a, kind_b) configured from tomography objects keep closures over them (functions of the
+    probability distributions): whatever is done afterwards to the OTHER loss, to the tomography objects (seed reset, objects handed
+    out and mutated, use by the other loss) leaves value()/gradient() of the first loss as they were"""
+    ka, kb = case["kinds"]
+    base = case["base"]
+    datasets = [mk_dataset(sp) for sp in base["datasets"]]
+    wa, ca, qa = loss_env(True)
+    wb, cb, qb = loss_env(False)
+    cust = lambda kind: [mk_custom(sp) for sp in base["customs"]] if kind in (0, 1) else [[float(Fraction(x)) for x in sp] for sp in base["rcustoms"]]
+    va_, vb_ = np.array([0.1, -0.2, 0.3]), np.array([0.7, 0.1, -0.2, 0.3])
+    la = new_loss(ka, qa.num_variables)
+    la.set_from_standard_qtomography_option_data(qa, loss_option(ka, "custom", cust(ka)[0]), datasets[0], True, False)
+    obs0 = canon(_observe(la, va_))
+    lb = new_loss(kb, qb.num_variables)
+    steps = [("configure the other loss on another tomography object", lambda: lb.set_from_standard_qtomography_option_data(qb, loss_option(kb, "custom", cust(kb)[1]), datasets[1], True, False)),
+             ("evaluate the other loss", lambda: _observe(lb, vb_)),
+             ("reset_seed of the tomography object", lambda: qa.reset_seed(3)),
+             ("mutators on the object handed out by the tomography object", lambda: [mut(qa.generate_empty_estimation_obj_with_setting_info()) for _, mut in MUTATORS]),
+             ("configure the other loss on the SAME tomography object", lambda: new_loss(kb, qa.num_variables).set_from_standard_qtomography_option_data(qa, loss_option(kb, "identity", None), datasets[2], True, False)),
+             ("generate data from the tomography object", lambda: qa.generate_empi_dists(qa.generate_empty_estimation_obj_with_setting_info().generate_origin_obj(), 10))]
+    for name, act in steps:
+        try:
+            with warnings.catch_warnings():
+                warnings.simplefilter("ignore")
+                act()
+        except Exception:
+            pass
+        obs = canon(_observe(la, va_))
+        ctx.count("loss_pair", key=(ka, kb, name), label="%s | %s" % (LOSS_CLASS[ka][:12], name[:30]))
+        if not same(obs, obs0, 1e-12):
+            ctx.violation("loss_pair", LOSS_CLASS[ka] + ".value", "history-dependent",
+                          "value()/gradient() of a configured %s changed after: %s (%s -> %s)" % (LOSS_CLASS[ka], name, _brief(obs0), _brief(obs)), case)
+            return
+
+
 def sub_loss(ctx):
     rng = ctx.rng
     cases = []
@@ -2228,6 +2535,10 @@ def sub_loss(ctx):
     # fixed case: a sequence in which the optimiser raises for one dataset (with fresh objects too) - attribution per dataset
     ec.insert(0, {"on_para": 1, "datasets": [[[900, "13/20"], [900, "16/20"], [50, "1/20"]], [[50, "13/20"], [400, "11/20"], [400, "3/20"]]],
                   "customs": [[["10/4", "2/4", "11/4"]] * 3], "calls": [[0, "inverse_sample_covariance", 0, 3, [1, 0]], [1, "identity", 0, 1, [1]]]})
+    pb = gen_loss_case(rng, 0, 1)
+    pb["rcustoms"] = gen_loss_case(rng, 2, 1)["customs"]
+    pairs = [{"kinds": [a, b], "base": pb} for a in range(4) for b in range(4) if not ctx.quick or b in (a, (a + 1) % 4)]
+    ctx.run_cases("loss_pair", chk_loss_pair, pairs)
     ctx.sample("estimate", ec[0])
     ctx.run_cases("estimate", chk_estimate, ec)
 
@@ -2261,9 +2572,9 @@ def sub_witness(ctx):
     ctx.run_cases("witness", chk_witness, cases)
 
 
-SUBS = [("cache", sub_cache), ("heap", sub_heap), ("basis", sub_basis), ("loss", sub_loss), ("witness", sub_witness), ("pure", sub_pure), ("sampling", sub_sampling), ("tomo", sub_tomo), ("factory", sub_factory), ("derived", sub_derived), ("history", sub_history)]
-FNS = {"cache": chk_cache, "heap": chk_heap, "basis": chk_basis, "copy": chk_copy, "loss": chk_loss, "algo": chk_algo, "estimate": chk_estimate,
-       "witness": chk_witness, "history": chk_history, "factory": chk_factory, "derived": chk_derived, "pure": chk_pure, "tomo": chk_tomo, "tomo_estimate": chk_tomo_estimate, "sampling": chk_sampling}
+SUBS = [("cache", sub_cache), ("heap", sub_heap), ("basis", sub_basis), ("loss", sub_loss), ("witness", sub_witness), ("pure", sub_pure), ("sampling", sub_sampling), ("tomo", sub_tomo), ("shared", sub_shared), ("containers", sub_containers), ("factory", sub_factory), ("derived", sub_derived), ("history", sub_history), ("process", sub_process)]
+FNS = {"cache": chk_cache, "heap": chk_heap, "basis": chk_basis, "copy": chk_copy, "loss": chk_loss, "algo": chk_algo, "estimate": chk_estimate, "loss_pair": chk_loss_pair,
+       "witness": chk_witness, "history": chk_history, "factory": chk_factory, "derived": chk_derived, "pure": chk_pure, "tomo": chk_tomo, "tomo_estimate": chk_tomo_estimate, "shared": chk_shared_estimators, "containers": chk_containers, "process": chk_process, "sampling": chk_sampling}
 
 
 def regen_tables(ctx):
